@@ -119,23 +119,62 @@ let diagnose_infer (p : program) (fd : func) : string =
      | Some st when int_of_nat st.a_h <> 1 -> Printf.sprintf "(pc %d) \"function ends with %d values on its stack\"" len (int_of_nat st.a_h)
      | _ -> "(pc -1) \"no fixpoint within fuel\"")
 
+(* annotations of the last verified `as-compiled` program, for checking real traces against them *)
+let last_annots : (astate option array array) option ref = ref None
+
 let verify_prog (print_annot : bool) (name : string) (fields : Sexp.t list) : string * string list =
   let (p, ninstr) = program_of fields in
+  let collected = ref [] in
   let rec go idx fs (mh, ml, annots) =
     match fs with
     | [] -> Ok (mh, ml, List.rev annots)
     | fd :: rest ->
       (match verify_function p fd with
        | Some a ->
+         collected := Array.of_list a :: !collected;
          let line = if print_annot then
              [Printf.sprintf "(annot %s (fn %d %s))" name idx (String.concat " " (List.map show_ann a))] else [] in
          go (idx + 1) rest (max mh (int_of_nat (max_height a)), max ml (int_of_nat (max_locals a)), line @ annots)
        | None ->
          let d = match infer_function p fd with None -> diagnose_infer p fd | Some _ -> diagnose p fd in
          Error (Printf.sprintf "(%s reject (fn %d) %s)" name idx d)) in
-  match go 0 p.p_funcs (0, 0, []) with
+  let r = go 0 p.p_funcs (0, 0, []) in
+  (if name = "as-compiled" then
+     last_annots := (match r with Ok _ -> Some (Array.of_list (List.rev !collected)) | Error _ -> None));
+  match r with
   | Ok (mh, ml, annots) -> (Printf.sprintf "(%s ok %d %d %d %d)" name (List.length p.p_funcs) ninstr mh ml, annots)
   | Error e -> (e, [])
+
+(* Check a real execution trace (hook H6) against the verifier's annotation: at every executed
+   instruction, operand-stack height above the frame's base and locals above locals_base must be
+   what the annotation says. Frame bases are reconstructed from frames_len. *)
+let check_trace (entries : Sexp.t list) : string =
+  match !last_annots with
+  | None -> "(trace-skip no-annotation)"
+  | Some ann ->
+    let frames : (int * int) list ref = ref [] in   (* (fn, stack base), innermost first *)
+    let n = ref 0 in
+    let bad = ref None in
+    List.iter (fun e ->
+        if !bad = None then
+          match e with
+          | Sexp.List [f; pc; sl; ll; lb; fl] ->
+            let f = ios f and pc = ios pc and sl = ios sl and ll = ios ll and lb = ios lb and fl = ios fl in
+            while List.length !frames > fl do frames := List.tl !frames done;
+            if List.length !frames < fl then frames := (f, sl - 1) :: !frames
+            else (match !frames with (f0, b) :: rest when f0 <> f -> frames := (f, b) :: rest | _ -> ());
+            let base = match !frames with (_, b) :: _ -> b | [] -> 0 in
+            incr n;
+            if f >= Array.length ann || pc >= Array.length ann.(f) then
+              bad := Some (Printf.sprintf "(trace-mismatch %d (fn %d) (pc %d) \"outside the annotation\")" !n f pc)
+            else (match ann.(f).(pc) with
+                | None -> bad := Some (Printf.sprintf "(trace-mismatch %d (fn %d) (pc %d) \"executed a pc the verifier deems unreachable\")" !n f pc)
+                | Some a ->
+                  let h = int_of_nat a.a_h and lo = int_of_nat a.a_lo and hi = int_of_nat a.a_hi in
+                  if sl - base <> h || ll - lb < lo || ll - lb > hi then
+                    bad := Some (Printf.sprintf "(trace-mismatch %d (fn %d) (pc %d) \"annotation (%d %d %d), real height %d locals %d\")" !n f pc h lo hi (sl - base) (ll - lb)))
+          | _ -> ()) entries;
+    match !bad with Some m -> m | None -> Printf.sprintf "(trace-ok %d)" !n
 
 let () =
   let print_annot = Array.length Sys.argv > 1 && Sys.argv.(1) = "--annot" in
@@ -151,6 +190,10 @@ let () =
             | other -> ("(" ^ Sexp.to_string other ^ ")", [])) progs in
         print_endline ("(verified " ^ String.concat " " (List.map fst results) ^ ")");
         List.iter (fun (_, ann) -> List.iter print_endline ann) results
+      | Some (Sexp.List (Sexp.Atom "trace" :: Sexp.Atom outcome :: entries)) ->
+        print_endline (match outcome with
+            | "none" -> "(trace-skip not-compiled)"
+            | _ -> check_trace entries)
       | _ -> print_endline "(skip)"
     done
   with End_of_file -> ()
